@@ -578,6 +578,9 @@ func (c07) Run(u fw.Unit) fw.Result {
 			if len(r.Batches) > 0 && len(r.Batches[0]) > 1 {
 				a.r.Nontrivial++
 			}
+			if r.Mutated != "" {
+				a.fail(fmt.Sprintf("C07|delivered-batch-altered-later|distinct=%v|having=%v|order=%v", p.Distinct, p.Having > 0, p.Order > 0), sql+": "+r.Mutated, cs, nil, nil)
+			}
 			a.outcome(js(r.Batches))
 			kind, what := c07Check(p, ds, r.Batches)
 			if extraK {
